@@ -393,4 +393,32 @@ theorem run_comment_end : ∀ (body : Str) (acc : List Char), '\n' ∉ body →
     rw [ih (c :: acc) hcs]
     simp
 
+/-! ### quotes inside a bare word -/
+
+/-- characters that keep the lexer (and the tokenizer) inside an unescaped bare word: everything except NGINX white space,
+`;`, `{`, `\` and `$` — in particular both quote characters, `}` and `#` -/
+def bareStay (c : Char) : Bool := !isNgxSpace c && c != ';' && c != '{' && c != '\\' && c != '$'
+
+theorem step_bare_stay (acc : List Char) (v : Bool) (c : Char) (h : bareStay c = true) :
+    step (.bare acc false v) c = (.bare (c :: acc) false false, []) := by
+  simp only [bareStay, Bool.and_eq_true, Bool.not_eq_true', bne_iff_ne, ne_eq] at h
+  obtain ⟨⟨⟨⟨h1, h2⟩, h3⟩, h4⟩, h5⟩ := h
+  simp [step, h1, h2, h3, h4, h5]
+
+/-- a run of such characters after the start of a bare word, ended by `;`, is ONE word token -/
+theorem run_bare_stay : ∀ (w rest : List Char) (acc : List Char) (v : Bool), (∀ c ∈ w, bareStay c = true) →
+    run (.bare acc false v) (w ++ ';' :: rest) = .word (acc.reverse ++ w) .none :: .semi :: run .gap rest := by
+  intro w
+  induction w with
+  | nil =>
+    intro rest acc v _
+    cases v <;> simp [run, step, isNgxSpace]
+  | cons c cs ih =>
+    intro rest acc v h
+    have hc := h c List.mem_cons_self
+    have hcs : ∀ x ∈ cs, bareStay x = true := fun x hx => h x (List.mem_cons_of_mem _ hx)
+    simp only [List.cons_append, run, step_bare_stay acc v c hc, List.nil_append]
+    rw [ih rest (c :: acc) false hcs]
+    simp
+
 end NGF.Telemetry
